@@ -567,6 +567,11 @@ class C07Checker(Checker):
         self.n_seeds = 0
         self.nbc_local = sc["sprout"]["kind"] == "composed" and sc["sprout"]["generator"]["kind"] == "NBCLocal"
 
+    def adopt(self, tree):
+        """start monitoring a tree that already has demes (restored snapshot)"""
+        for _, d in tree.all_demes:
+            self.known.add(d.id)
+
     def on_round(self, run, rnd):
         self.last_round = rnd
         before = rnd["before"]
@@ -1252,3 +1257,169 @@ class C20Checker(Checker):
             return
         self._check_reports(run)
         self._check_purity(run)
+
+
+# ------------------------------------------------------------------------------------------------
+# C10 — specification of every sprout component, evaluated on each observed call
+
+
+def _ids(inds):
+    return [id(i) for i in inds]
+
+
+def spec_subset(before, after) -> str | None:
+    for did, inds in after.items():
+        if did not in before:
+            return f"filter introduced a new parent {did}"
+        b = set(_ids(before[did]))
+        for i in inds:
+            if id(i) not in b:
+                return f"filter introduced a candidate for parent {did} that was not in its input"
+        if len(set(_ids(inds))) != len(inds) and len(set(_ids(before[did]))) == len(before[did]):
+            return f"filter duplicated a candidate of parent {did}"
+    return None
+
+
+def spec_deme_limit(before, after, limit: int, problem) -> tuple[str, str] | None:
+    for did, inds in before.items():
+        out = after.get(did, [])
+        want = min(limit, len(inds))
+        if len(out) != want:
+            return ("size", f"DemeLimit({limit}) kept {len(out)} of {len(inds)} candidates of parent {did}, expected {want}")
+        kept = set(_ids(out))
+        dropped = [i for i in inds if id(i) not in kept]
+        for dr in dropped:
+            for k in out:
+                if better(problem, dr.fitness, k.fitness):
+                    return ("kept-worse", f"DemeLimit({limit}) dropped a candidate with fitness {dr.fitness!r} of parent {did} but kept one with {k.fitness!r}")
+    return None
+
+
+def spec_level_limit(before, after, levels_of: dict, active: list, limit: int, problem, nlevels: int) -> tuple[str, str] | None:
+    for level in range(nlevels - 1):
+        parents = [d for d in before if levels_of[d] == level]
+        cands = [i for d in parents for i in before[d]]
+        kept = [i for d in parents for i in after.get(d, [])]
+        free = limit - active[level + 1]
+        if len(cands) <= free:
+            if len(kept) != len(cands):
+                return ("dropped-without-need", f"LevelLimit({limit}): level {level + 1} has {active[level + 1]} active demes and {len(cands)} candidates fit, but only {len(kept)} were kept")
+            continue
+        if len(kept) > max(free, 0):
+            return ("overfull", f"LevelLimit({limit}): kept {len(kept)} candidates for level {level + 1} with {active[level + 1]} active demes there")
+        fits = [i.fitness for i in cands]
+        if free >= 0 and len(set(fits)) == len(fits) and len(kept) != free:
+            return ("slots-not-filled", f"LevelLimit({limit}): {len(cands)} candidates with distinct fitness for {free} free slots on level {level + 1}, kept {len(kept)}")
+        kid = set(_ids(kept))
+        for dr in cands:
+            if id(dr) in kid:
+                continue
+            for k in kept:
+                if better(problem, dr.fitness, k.fitness):
+                    return ("kept-worse", f"LevelLimit({limit}): dropped a candidate with fitness {dr.fitness!r} for level {level + 1} but kept one with {k.fitness!r} (maximize={getattr(problem, 'maximize', None)})")
+    return None
+
+
+def spec_skip_same(before, after, demes: dict, tree) -> tuple[str, str] | None:
+    for did, inds in before.items():
+        d = demes[did]
+        out = after.get(did, [])
+        own = [np.asarray(ch._sprout_seed.genome, dtype=float) for ch in d.children]
+        level_seeds = [np.asarray(ch._sprout_seed.genome, dtype=float) for ld in tree.levels[d.level] for ch in ld.children]
+        for i in out:
+            g = np.asarray(i.genome, dtype=float)
+            if any(np.all(np.isclose(s, g)) for s in own):
+                return ("let-through-own-seed", f"SkipSameSprout let through candidate {fmt(g)} of parent {did}, numerically equal to a seed already sprouted from it")
+        kept = set(_ids(out))
+        for i in inds:
+            if id(i) in kept:
+                continue
+            g = np.asarray(i.genome, dtype=float)
+            if not any(np.all(np.isclose(s, g)) for s in level_seeds):
+                return ("rejected-fresh-candidate", f"SkipSameSprout rejected candidate {fmt(g)} of parent {did} although it differs from every existing seed of level {d.level + 1}")
+    return None
+
+
+def spec_generator(gen, out: dict, demes: dict, tree, problem) -> tuple[str, str] | None:
+    name = type(gen).__name__
+    H = len(tree.levels)
+    if name == "NBCGeneratorWithLocalMethod":
+        expect = {d.id for lvl in tree.levels[:-2] for d in lvl if d.is_active}
+        finished = {d.id for d in tree.levels[-2] if (not d.is_active) and d.started_at + len(d._history) == tree.metaepoch_count} if H >= 2 else set()
+    else:
+        expect = {d.id for lvl in tree.levels[:-1] for d in lvl if d.is_active}
+        finished = set()
+    got = set(out)
+    if name in ("BestPerDeme", "NBC_Generator", "NBCGeneratorWithLocalMethod"):
+        if got - expect - finished:
+            bad = sorted(got - expect - finished)
+            d = demes[bad[0]]
+            why = "inactive" if not d.is_active else ("leaf" if d.level >= H - 1 else "unexpected")
+            return (f"candidates-from-{why}-deme", f"{name} proposed candidates for deme {bad[0]} ({why}, level {d.level})")
+        if name != "NBCGeneratorWithLocalMethod" and expect - got:
+            return ("active-deme-skipped", f"{name} proposed nothing for active non-leaf demes {sorted(expect - got)}")
+    for did, inds in out.items():
+        d = demes[did]
+        if did in finished and name == "NBCGeneratorWithLocalMethod":
+            b = d.best_individual
+            if len(inds) != 1 or inds[0] is not b and not (np.array_equal(inds[0].genome, b.genome) and inds[0].fitness == b.fitness):
+                return ("finished-deme-offer", f"{name}: just-finished deme {did} must offer exactly its best individual")
+            continue
+        pop = d.current_population
+        pid = set(_ids(pop))
+        for i in inds:
+            if id(i) not in pid and not any(np.array_equal(i.genome, p.genome) and i.fitness == p.fitness for p in pop):
+                return ("candidate-not-in-current-population", f"{name}: candidate {fmt(i.genome)} for deme {did} is not a member of its current population")
+        if name == "BestPerDeme":
+            if len(inds) != 1:
+                return ("best-per-deme-count", f"BestPerDeme proposed {len(inds)} candidates for deme {did}")
+            for p in pop:
+                if better(problem, p.fitness, inds[0].fitness):
+                    return ("best-per-deme-not-best", f"BestPerDeme proposed fitness {inds[0].fitness!r} for deme {did} whose current population holds {p.fitness!r}")
+    return None
+
+
+class C10Checker(Checker):
+    prop = "C10"
+
+    def __init__(self, sc):
+        super().__init__()
+        self.sc = sc
+        self.had_to_choose: dict[str, int] = {}
+        self.events = 0
+
+    def on_filter(self, run, e):
+        self.events += 1
+        problem = run.level_problems[0]
+        tree = e["tree"]
+        mx = "max" if self.sc["maximize"] else "min"
+        if e["chain"] == "generator":
+            r = spec_generator(e["generator"], e["after"], e["demes"], tree, problem)
+            if r:
+                self.fail(f"generator/{type(e['generator']).__name__}/{r[0]}", f"metaepoch {tree.metaepoch_count}: {r[1]}")
+            return
+        f = e["filter"]
+        name = type(f).__name__
+        msg = spec_subset(e["before"], e["after"])
+        if msg:
+            self.fail(f"filter/{name}/adds-candidates", f"metaepoch {tree.metaepoch_count}: {msg}")
+            return
+        r = None
+        if name == "DemeLimit":
+            if any(len(v) > f.limit for v in e["before"].values()):
+                self.had_to_choose[f"DemeLimit/{mx}"] = self.had_to_choose.get(f"DemeLimit/{mx}", 0) + 1
+            r = spec_deme_limit(e["before"], e["after"], f.limit, problem)
+        elif name == "LevelLimit":
+            levels_of = {did: d.level for did, d in e["demes"].items()}
+            per = {}
+            for did, inds in e["before"].items():
+                per[levels_of[did] + 1] = per.get(levels_of[did] + 1, 0) + len(inds)
+            if any(n > f.limit - e["active"][lv] for lv, n in per.items()):
+                self.had_to_choose[f"LevelLimit/{mx}"] = self.had_to_choose.get(f"LevelLimit/{mx}", 0) + 1
+            r = spec_level_limit(e["before"], e["after"], levels_of, e["active"], f.limit, problem, len(tree.levels))
+        elif name == "SkipSameSprout":
+            if any(len(e["after"].get(d, [])) < len(v) for d, v in e["before"].items()):
+                self.had_to_choose["SkipSameSprout"] = self.had_to_choose.get("SkipSameSprout", 0) + 1
+            r = spec_skip_same(e["before"], e["after"], e["demes"], tree)
+        if r:
+            self.fail(f"filter/{name}/{r[0]}/{mx}", f"metaepoch {tree.metaepoch_count}: {r[1]}")
